@@ -912,6 +912,7 @@ pub struct Report {
     pub cases_db: Vec<String>,
     pub imp_db: Vec<String>,
     pub desc_db: Vec<String>,
+    pub desc_db_skipped: Vec<String>,
 }
 
 /// a storage (not a database) with a few records, a free region and a free index: built through the hook wrapper
@@ -1017,7 +1018,7 @@ pub fn run(seed: u64, out: &str, thorough: bool, threads: usize, variants: &[Str
     done.extend(run_jobs(jobs, &work, threads, Duration::from_secs(8)));
     let _ = std::fs::remove_dir_all(&work);
     resolve_sites(&mut done);
-    let mut rep = Report { oracle: vec![], stats, samples: vec![], evaluations: total as u64, nontrivial: 0, cases: vec![], imp: vec![], cases_db: vec![], imp_db: vec![], desc_db: vec![] };
+    let mut rep = Report { oracle: vec![], stats, samples: vec![], evaluations: total as u64, nontrivial: 0, cases: vec![], imp: vec![], cases_db: vec![], imp_db: vec![], desc_db: vec![], desc_db_skipped: vec![] };
     let mut witness: BTreeMap<String, (usize, String)> = BTreeMap::new();
     let wdir = format!("{}/witness", out);
     let _ = std::fs::remove_dir_all(&wdir);
@@ -1035,6 +1036,7 @@ pub fn run(seed: u64, out: &str, thorough: bool, threads: usize, variants: &[Str
             if d.out.class == "skip" || d.extra.recs.is_none() {
                 let why = d.extra.skip.clone().unwrap_or_else(|| d.out.class.split('-').next().unwrap_or("").to_string());
                 *rep.stats.entry(format!("dbload-skip:{}", why)).or_insert(0) += 1;
+                if d.extra.skip.is_none() && rep.desc_db_skipped.len() < 40 { rep.desc_db_skipped.push(format!("{} seed={} mutation={} data_len={} : {}", d.out.class, d.seed, d.desc, d.data_len, d.out.detail)); }
                 continue;
             }
             // the record table's own allocation class belongs to the storage layer (known class): not a load outcome
